@@ -1,8 +1,105 @@
 import RbV.Basic.Codec
-/-! Driver for property C03 (line protocol → verdict). -/
-namespace RbV.Drv.C03
-open RbV.Codec
+import RbV.Ref.SA
+/-! Driver for property C03 (suffix array, LCP, shortest unique substrings, sampled suffix array).
 
-def verdict (_toks : List String) (_out : String) : String := "bad-op unimplemented"
+`c03 sa <text>                     => <sa>`                   accepted iff `checkSA text sa`
+`c03 lcp <text>                    => <sa>;<lcp>;<sus>`       `checkSA`, `lcp = lcpRef text sa`, `sus = susRef`
+`c03 int <v0,…>                    => <sa>`                   accepted iff `checkSorted text sa`
+`c03 samp <text> <f|n> <ss> <ks>   => <sa>;<g>/<g>/…`         `checkSA`, every `g = sa`
+-/
+namespace RbV.Drv.C03
+open RbV.Codec RbV
+
+def parseOptNat (s : String) : Option (Option Nat) :=
+  if s = "n" then some none else (s.toNat?).map some
+
+def showOptNatList (l : List (Option Nat)) : String :=
+  if l.isEmpty then "-" else ",".intercalate (l.map fun | none => "n" | some v => toString v)
+
+/-- number of LMS positions (S-type position preceded by an L-type one) of a key text -/
+def lmsCount (ks : List Nat) : Nat :=
+  -- scan from the right: (next symbol, next is S-type, count)
+  let step := fun (c : Nat) (st : Option (Nat × Bool) × Nat) =>
+    match st with
+    | (none, n) => (some (c, true), n)
+    | (some (d, sNext), n) =>
+      let s := if c = d then sNext else decide (c < d)
+      (some (c, s), if !s && sNext then n + 1 else n)
+  (ks.foldr step (none, 0)).2
+
+def sentCount (t : List Nat) : Nat := t.count (sentinelOf t)
+
+def saTags (t : List Nat) (sa : List Nat) : String :=
+  let ns := sentCount t
+  let lms := lmsCount (inducedKeys t sa)
+  (if lms ≥ 2 || ns ≥ 2 then " nt" else "")
+    ++ (if ns ≥ 2 then " multi-sent" else "")
+    ++ (if ns ≥ 256 then " sent>=256" else "")
+    ++ (if lms ≥ 256 then " lms>=256" else "")
+    ++ (if t.length ≥ 100 then " n>=100" else "")
+    ++ (if sentinelOf t ≠ 36 then " sent-not-$" else "")
+
+def failOut (out : String) : Option String :=
+  if out.startsWith "PANIC" || out.startsWith "HANG" || out.startsWith "CRASH" then some ("reject " ++ out)
+  else none
+
+def verdict (toks : List String) (out : String) : String :=
+  match toks with
+  | ["sa", th] =>
+    match parseHex th with
+    | some t =>
+      match parseNatList out with
+      | some sa => if checkSA t sa then "ok" ++ saTags t sa else "reject not-a-sorted-suffix-permutation"
+      | none => (failOut out).getD "bad-op output"
+    | none => "bad-op parse"
+  | ["int", tl] =>
+    match parseNatList tl with
+    | some t =>
+      match parseNatList out with
+      | some sa =>
+        if checkSorted t sa then "ok" ++ (if lmsCount t ≥ 2 then " nt" else "") ++ " int"
+        else "reject not-a-sorted-suffix-permutation"
+      | none => (failOut out).getD "bad-op output"
+    | none => "bad-op parse"
+  | ["lcp", th] =>
+    match parseHex th with
+    | some t =>
+      match out.splitOn ";" with
+      | [a, b, c] =>
+        match parseNatList a, parseIntList b, parseList parseOptNat c with
+        | some sa, some l, some sus =>
+          if !checkSA t sa then "reject not-a-sorted-suffix-permutation" else
+          let le := lcpRef t sa
+          if l ≠ le then "diff lcp:" ++ showIntList le else
+          let se := (List.range t.length).map (susRef t)
+          if sus ≠ se then "diff sus:" ++ showOptNatList se else
+          "ok" ++ (if t.length ≥ 4 then " nt" else "") ++ " lcp"
+            ++ (if le.any (· ≥ 127) then " lcp>=127" else "")
+            ++ (if le.any (· ≥ 1) then " lcp>=1" else "")
+        | _, _, _ => "bad-op output"
+      | _ => (failOut out).getD "bad-op output"
+    | none => "bad-op parse"
+  | ["samp", th, _fl, ssS, ksS] =>
+    match parseHex th, parseNatList ssS, parseNatList ksS with
+    | some t, some ss, some ks =>
+      match out.splitOn ";" with
+      | [a, b] =>
+        match parseNatList a, parseListNE (parseList parseOptNat) b '/' with
+        | some sa, some gs =>
+          if !checkSA t sa then "reject not-a-sorted-suffix-permutation" else
+          if gs.length ≠ ss.length * ks.length then "bad-op arity" else
+          let want := sa.map some
+          let combos := ss.flatMap (fun s => ks.map (fun k => (s, k)))
+          match (combos.zip gs).find? (fun x => x.2 ≠ want) with
+          | some ((s, k), _) => "diff samp s:" ++ toString s ++ " k:" ++ toString k ++ " " ++ showNatList sa
+          | none =>
+            "ok" ++ (if t.length ≥ 4 then " nt" else "") ++ " samp"
+              ++ (if sentCount t ≥ 2 then " multi-sent" else "")
+              ++ (if ks.any (· > 64) then " k>64" else "")
+              ++ (if ss.any (· ≥ t.length) then " s>=n" else "")
+        | _, _ => "bad-op output"
+      | _ => (failOut out).getD "bad-op output"
+    | _, _, _ => "bad-op parse"
+  | _ => "bad-op arity"
 
 end RbV.Drv.C03
